@@ -205,12 +205,13 @@ def control_flow_pairs(ctx):
                   {"tpl": "fltbranch", "cmp": ">", "thenE": t, "elseE": e}):
             p = dict(p, pres=plain)
             add(p, dict(p, thenE=e, elseE=t))
-    L = ["a+b", "b", "7"]
-    for (l1, l2, l3, l4), form in itertools.product(itertools.product(L, repeat=4), ("ret", "glob")):
-        p = {"tpl": "dectree", "c2": "b>0", "c3": "a>b", "l1": l1, "l2": l2, "l3": l3, "l4": l4, "form": form, "pres": plain}
+    L = ["a+b", "b", "7", "a-b"]
+    tuples = list(itertools.permutations(L, 4)) + [t for t in itertools.product(L[:3], repeat=4)]     # four DISTINCT leaves first
+    for (l1, l2, l3, l4), form, pre in itertools.product(tuples, ("glob", "ret"), ("yes", "no")):
+        p = {"tpl": "dectree", "c2": "b>0", "c3": "a>b", "l1": l1, "l2": l2, "l3": l3, "l4": l4, "form": form, "pre": pre, "pres": plain}
         for q in (dict(p, l1=l2, l2=l1), dict(p, l2=l3, l3=l2), dict(p, c2=p["c3"], c3=p["c2"], l1=l3, l3=l1, l2=l4, l4=l2),
                   dict(p, c2=p["c3"], c3=p["c2"], l1=l4, l4=l1, l2=l3, l3=l2)):     # subtrees moved AND their leaves exchanged
-            if q != p and len(old) < 420:
+            if q != p and len(old) < 520:
                 add(p, q)
     base = os.path.join(ctx.scratch, "cfpairs")
     po = c04.write_pkg(os.path.join(base, "o"), minigo.render_file("pk", old))
